@@ -82,6 +82,14 @@ def setup():
             sim.steps += 1
             if sim.steps > sim.max_steps:
                 raise vloop.StepBound(f"more than {sim.max_steps} traversal steps")
+            gap = sim.steps - sim.progress_at
+            if gap > sim.max_gap:
+                sim.max_gap = gap
+            if gap > sim.max_gap_steps:
+                raise vloop.StepBound(f"more than {sim.max_gap_steps} traversal steps without any test or state "
+                                      f"operation starting or ending")
+            if sim.max_executions and sim.executions > sim.max_executions:
+                raise vloop.StepBound(f"more than {sim.max_executions} test executions")
         return original_cleanup_ready(self, worker)
 
     TestNode.is_cleanup_ready = is_cleanup_ready
@@ -460,6 +468,13 @@ class Sim:
         self.events = []
         self.steps = 0
         self.max_steps = 3_000_000
+        # watchdogs relative to progress: steps since the last start/end/state operation, and executions in total
+        # (set per case by the caller that knows the scenario; 0 = unbounded)
+        self.max_gap_steps = 3_000_000
+        self.max_executions = 0
+        self.progress_at = 0
+        self.max_gap = 0
+        self.executions = 0
         self.registrations = []
         self.attempts = {}
         self.workers = {}
@@ -475,6 +490,10 @@ class Sim:
         event = {"i": len(self.events), "t": round(self.loop.time(), 6) if self.loop else 0.0, "kind": kind}
         event.update(data)
         self.events.append(event)
+        if kind in ("start", "end", "door"):
+            self.progress_at = self.steps
+            if kind == "start":
+                self.executions += 1
         return event
 
     def identity(self, node):
